@@ -412,8 +412,9 @@ func computeGate(c *Ctx) *gateInfo {
 		} else {
 			ts := gateBlock.Succs[0]
 			_, isRet := ts.Instrs[len(ts.Instrs)-1].(*ssa.Return)
-			cond := ppf.get(iff.Cond)
-			if !isRet || !(cond.op == "call" && strings.Contains(cond.name, "RequiresTx")) {
+			condCall, isCondCall := iff.Cond.(*ssa.Call)
+			isReq := isCondCall && condCall.Call.StaticCallee() != nil && condCall.Call.StaticCallee().Name() == "RequiresTx"
+			if !isRet || !isReq {
 				okAll = false
 				fail("G2/Parse-gate", iff.Pos(), "the RequiresTx() branch does not return an error immediately")
 			}
